@@ -6,7 +6,9 @@
                          reply: "none"  or  <rule list id or ->:<k.k.k>
      xinit <k>           state left when the first initialisation is interrupted after k statements:
                          "none" (no instance) or <cleared><regex_set>:<k.k.k> (as a heap object of `sched`)
-     xinitlen            number of statements of the initialisation sequence *)
+     xinitlen            number of statements of the initialisation sequence
+     xinitflag           "true" when some interruption point leaves a published instance that is not the finished
+                         lexer (HistoryX.publishes_before_initb on the generated program), else "false" *)
 open Sqlmodel
 open Drv_common
 
@@ -39,4 +41,5 @@ let () =
          | None -> "none"
          | Some (c, (r, ks)) -> (if c then "1" else "0") ^ (if r then "1" else "0") ^ ":" ^ kws_str ks)
     | _ -> "BAD");
-  register "xinitlen" (function _ -> string_of_int (int_of_nat xinit_len))
+  register "xinitlen" (function _ -> string_of_int (int_of_nat xinit_len));
+  register "xinitflag" (function _ -> if xinit_publishes_early then "true" else "false")
